@@ -2,6 +2,7 @@ import ElvProofs.C19.Inv
 import ElvProofs.C19.Replay
 import ElvProofs.C19.Interp
 import ElvProofs.C19.Nested
+import ElvProofs.C19.Signal
 /-!
 C19 — interrupting evaluation at any moment is handled cleanly.
 
@@ -154,6 +155,103 @@ theorem C19_nested_extends_sequential (t : Nat) (p : Prog) :
     evP (syncT t) (emb p) 0 (exec t p {}).1 (exec t p {}).2.steps := by
   have h : Wn t {} := ⟨by unfold W; left; simp; omega, by simp⟩
   exact exec_ev t p {} h
+
+/-! ### real signals: `eval.ListenInterrupts` and the process-wide registration table of os/signal
+(`ElvModel/C19/Signal.lean`)
+
+State = the set of listeners (one per `ListenInterrupts` call) with their registration, the
+shell's session-wide channel, the disposition of SIGINT / SIGQUIT.  `Sig.Run c` = all interleavings
+of `listen`, `done`, the listener goroutines' `wakeSig` / `wakeDone` (followed by the cleanup `c`),
+`session` / `unsession`, and `deliver` of a signal — the latter only while a handler is expected
+(`Sig.expectsHandler`: session channel installed or the goroutine of some listener not finished). -/
+
+/-- "Never crashes the interpreter", signal side.  With the cleanup of the code
+(`signal.Stop(sigCh)`: removes the listener's own channel, never another) in every reachable state:
+the process has not been killed by a signal and no signal was dropped; while the goroutine of ANY
+listener has not finished, or the session channel is installed, the process HANDLES SIGINT and
+SIGQUIT; so the next signal does not kill it either. -/
+theorem C19_signal_handled_while_listener_live (tr : List Sig.Label) (s : Sig.State)
+    (h : Sig.Run .stopOwn tr s) :
+    (s.killed = none ∧ s.lost = 0) ∧
+    (Sig.expectsHandler s → ∀ sg, Sig.handles s sg = true) ∧
+    (Sig.expectsHandler s → ∀ sg s', Sig.step .stopOwn s (.deliver sg) = some s' →
+      s'.killed = none ∧ s'.lost = 0) := by
+  have hi := Sig.inv_run h
+  refine ⟨⟨hi.alive, hi.lost⟩, fun he sg => Sig.handles_of_expected hi he sg, fun he sg s' hs => ?_⟩
+  have hi' := Sig.inv_step hi (fun _ _ => he) hs
+  exact ⟨hi'.alive, hi'.lost⟩
+
+/-- `Stop` removes one registration, never others: the cleanup of listener `i` leaves the session
+channel, the dispositions and every other listener exactly as they were. -/
+theorem C19_signal_stop_removes_only_own (i : Nat) (s : Sig.State) :
+    (Sig.cleanup .stopOwn i s).sess = s.sess ∧ (Sig.cleanup .stopOwn i s).ign = s.ign ∧
+    ∀ l ∈ s.ls, l.id ≠ i → l ∈ (Sig.cleanup .stopOwn i s).ls := by
+  refine ⟨rfl, rfl, fun l hl hne => ?_⟩
+  simp only [Sig.cleanup, Sig.upd_eq_map]
+  exact List.mem_map.mpr ⟨l, hl, by simp [hne]⟩
+
+/-- A signal that arrives while listener `l` is live reaches it: `deliver` puts the signal in its
+channel, its goroutine can take the `sigCh` branch, and then the context is cancelled by the signal
+(`intr`) exactly if the evaluation had not returned yet — which, by `C19_nested_interrupt` with this
+moment as the delivery time, makes `Eval` return the interrupted exception. -/
+theorem C19_signal_interrupts_running (tr : List Sig.Label) (s : Sig.State) (h : Sig.Run .stopOwn tr s)
+    (l : Sig.Lst) (hl : l ∈ s.ls) (hx : l.exited = false) (sg : Sig.Sg) :
+    ∃ s1 s2 l2, Sig.step .stopOwn s (.deliver sg) = some s1 ∧
+      Sig.step .stopOwn s1 (.wakeSig l.id) = some s2 ∧
+      Sig.find l.id s2.ls = some l2 ∧ l2.intr = (!l.done) ∧ l2.exited = true := by
+  have hi := Sig.inv_run h
+  obtain ⟨s1, hs1, hk1, hf1⟩ := Sig.deliver_reaches hi hl hx sg
+  obtain ⟨s2, hs2, hf2⟩ := Sig.wakeSig_intr (l1 := { l with pend := true }) hk1 hf1 rfl hx
+  exact ⟨s1, s2, _, hs1, hs2, hf2, rfl, rfl⟩
+
+/-- The script semantics of the `sig` ops (what the driver prints for them): with the cleanup of
+the code no script ends `KILLED` — a token is executed or refused (`unhandled`: a signal while
+nothing is supposed to handle it; `bad-script`). -/
+theorem C19_signal_script_never_killed (ts : List Sig.Tok) (j : Nat) :
+    Sig.runToks .stopOwn {} 0 ts ≠ .inr (j, .killed) :=
+  Sig.runToks_not_killed ts {} 0 [] Sig.Run.init j
+
+/-- The seeded change `signal.Reset(syscall.SIGINT, syscall.SIGQUIT)` in the cleanup (and its
+sibling `signal.Ignore`) breaks exactly this.  (a) session channel installed, one evaluation ends,
+its listener cleans up, Ctrl-C: the process is KILLED although the session channel is installed;
+(b) two overlapping listeners, the second evaluation ends, Ctrl-C while the first one is still
+running: KILLED while a listener is live; (c) with `Ignore` the process survives but the signal is
+dropped and the running evaluation is never interrupted.  All three runs are guarded (a handler was
+expected at every `deliver`).  `harness/corpus/C19.txt` replays the scripts on the real code. -/
+theorem C19_signal_reset_counterexample :
+    (∃ tr s, Sig.Run (.resetSigs Sig.Reg.all) tr s ∧ s.sess.isSome = true ∧ s.killed = some .int) ∧
+    (∃ tr s, Sig.Run (.resetSigs Sig.Reg.all) tr s ∧
+      (∃ l ∈ s.ls, l.exited = false ∧ l.done = false) ∧ s.killed = some .int) ∧
+    (∃ tr s, Sig.Run (.ignoreSigs Sig.Reg.all) tr s ∧
+      (∃ l ∈ s.ls, l.exited = false ∧ l.done = false ∧ l.pend = false) ∧ s.lost = 1) := by
+  refine ⟨⟨[.session, .listen 1, .done 1, .wakeDone 1, .deliver .int], _,
+      Sig.run_of_replayG rfl, rfl, rfl⟩,
+    ⟨[.listen 1, .listen 2, .done 2, .wakeDone 2, .deliver .int], _,
+      Sig.run_of_replayG rfl, ⟨_, List.mem_cons_of_mem _ List.mem_cons_self, rfl, rfl⟩, rfl⟩,
+    ⟨[.listen 1, .listen 2, .done 2, .wakeDone 2, .deliver .int], _,
+      Sig.run_of_replayG rfl, ⟨_, List.mem_cons_of_mem _ List.mem_cons_self, rfl, rfl, rfl⟩, rfl⟩⟩
+
+/-- the same as scripts of the harness: `S B1:while I W1 Z I` (second Ctrl-C after the command
+stopped) and `B1:while B2:gate F2 W2 Z I W1` (overlap), run with the three cleanups -/
+example :
+    (match Sig.runToks (.resetSigs Sig.Reg.all) {} 0 [.sess, .begin 1 false, .sig .int, .wait 1, .delay, .sig .int] with
+      | .inr (5, .killed) => true | _ => false) = true ∧
+    (match Sig.runToks (.resetSigs Sig.Reg.all) {} 0
+        [.begin 1 false, .begin 2 true, .fin 2, .wait 2, .delay, .sig .int, .wait 1] with
+      | .inr (5, .killed) => true | _ => false) = true ∧
+    (match Sig.runToks .stopOwn {} 0 [.sess, .begin 1 false, .sig .int, .wait 1, .delay, .sig .int] with
+      | .inl x => x.res == [(1, true)] && x.st.sessSeen == 2 | _ => false) = true ∧
+    (match Sig.runToks .stopOwn {} 0
+        [.begin 1 false, .begin 2 true, .fin 2, .wait 2, .delay, .sig .int, .wait 1] with
+      | .inl x => x.res == [(2, false), (1, true)] | _ => false) = true := by
+  refine ⟨?_, ?_, ?_, ?_⟩ <;> decide
+
+/-- non-vacuity of the signal theorems: a guarded run of the code's cleanup with the session
+channel, two overlapping listeners, one finishing, a SIGQUIT reaching the other -/
+example : ∃ s, Sig.Run .stopOwn [.session, .listen 1, .listen 2, .done 2, .wakeDone 2, .deliver .quit,
+      .wakeSig 1, .done 1, .deliver .int] s ∧ s.sessSeen = 2 ∧ s.killed = none ∧
+    (Sig.find 1 s.ls).map (·.intr) = some true ∧ (Sig.find 2 s.ls).map (·.intr) = some false :=
+  ⟨_, Sig.run_of_replayG rfl, rfl, rfl, rfl, rfl⟩
 
 /-! ### non-vacuity -/
 
